@@ -76,7 +76,15 @@ func cli(env *core.Env, root string, stdin []byte, args ...string) *sut.Result {
 		flags = []string{"--directory=" + dir}
 	}
 	if (h>>16)%6 == 0 {
-		flags = append(flags, "--log-level", []string{"debug", "error", "warn"}[(h>>20)%3])
+		lvl := []string{"debug", "error", "warn", "trace", "info"}[(h>>20)%5]
+		switch (h >> 24) % 3 {
+		case 0:
+			flags = append(flags, "--log-level", lvl)
+		case 1:
+			flags = append(flags, "-l", lvl)
+		default:
+			flags = append(flags, "--log-level="+lvl)
+		}
 	}
 	var full []string
 	if h%4 == 1 {
